@@ -100,7 +100,8 @@ func runStepper(c *Case) Verdict {
 		if err != nil {
 			return Verdict{Verdict: "infra", Note: err.Error()}
 		}
-		ctx := context.Background()
+		ctx, cancelCtx := context.WithCancel(context.Background())
+		probe.Cancel = cancelCtx
 		var res types.MalType
 		var eerr error
 		var foreign string
